@@ -102,7 +102,7 @@ pub fn l2_case(seed: u64, l: &mut Local) {
     }
 }
 
-/// L3: two address records of one host; the second arrives Δ ms after the first, with the flush bit.
+/// L3: two address records of one host (both IPv4 or both IPv6); the second arrives Δ ms after the first, with the flush bit.
 pub fn l3_case(delta: u64, seed: u64, l: &mut Local) {
     let mut rng = Rng::new(seed);
     let mut w = World::new(seed);
@@ -113,15 +113,25 @@ pub fn l3_case(delta: u64, seed: u64, l: &mut Local) {
     let chan = w.resolve_hostname(h, "flushy.local.", None);
     w.run_for(rng.below(500));
     let owner = wire::name("flushy.local");
+    // the records under test are IPv4 or IPv6 addresses (the rule is the same; the code paths are not)
+    let v6 = rng.chance(1, 3);
+    let ip_of = |last: u8| -> IpAddr { if v6 { IpAddr::from(format!("fd00::{last:x}").parse::<std::net::Ipv6Addr>().unwrap()) } else { IpAddr::from([10, 0, 0, last]) } };
+    let rec = |last: u8| match ip_of(last) {
+        IpAddr::V4(a) => wire::a(&owner, 120, a.octets()),
+        IpAddr::V6(a) => wire::aaaa(&owner, 120, a.octets()),
+    };
     let t1 = w.now();
     let mut m1 = Message::response();
-    m1.answers.push(wire::a(&owner, 120, [10, 0, 0, 61]));
+    m1.answers.push(rec(0x61));
     // the host's address of the other family, learned at the same time on the same interface: records of
     // another type are none of a cache-flush record's business
     let other_family = rng.chance(1, 2);
-    let v6addr: [u8; 16] = "fd00::61".parse::<std::net::Ipv6Addr>().unwrap().octets();
+    let other_addr: IpAddr = if v6 { IpAddr::from([10, 0, 0, 0x41]) } else { IpAddr::from("fd00::41".parse::<std::net::Ipv6Addr>().unwrap()) };
     if other_family {
-        m1.answers.push(wire::aaaa(&owner, 120, v6addr));
+        m1.answers.push(match other_addr {
+            IpAddr::V4(a) => wire::a(&owner, 120, a.octets()),
+            IpAddr::V6(a) => wire::aaaa(&owner, 120, a.octets()),
+        });
     }
     w.inject_msg(h, 2, scen::peer4(61), &m1);
     w.run_until(t1 + delta);
@@ -129,9 +139,12 @@ pub fn l3_case(delta: u64, seed: u64, l: &mut Local) {
     let other_if = two_if && rng.chance(1, 2);
     let mut m2 = Message::response();
     let same_burst_extra = rng.chance(1, 3);
-    m2.answers.push(wire::a(&owner, 120, [10, 0, 0, 62]));
+    m2.answers.push(rec(0x62));
     if same_burst_extra {
-        m2.answers.push(wire::a(&owner, 120, [10, 0, 0, 63]));
+        m2.answers.push(rec(0x63));
+    }
+    for r in m2.answers.iter_mut() {
+        r.class |= wire::FLUSH;
     }
     if other_if {
         w.inject_msg(h, 3, sock4([192, 168, 1, 62], 5353), &m2);
@@ -141,7 +154,7 @@ pub fn l3_case(delta: u64, seed: u64, l: &mut Local) {
     let t2 = w.now();
     w.run_until(t2 + 5000);
     l.evaluations += 1;
-    l.distinct.insert(util::fnv_str(&format!("L3|{delta}|{two_if}|{other_if}|{same_burst_extra}|{other_family}")));
+    l.distinct.insert(util::fnv_str(&format!("L3|{delta}|{two_if}|{other_if}|{same_burst_extra}|{other_family}|{v6}")));
     let Some(chan) = chan else { return };
     let removed: Vec<(u64, IpAddr)> = w
         .trace
@@ -152,8 +165,9 @@ pub fn l3_case(delta: u64, seed: u64, l: &mut Local) {
         })
         .flatten()
         .collect();
-    let first: IpAddr = IpAddr::from([10, 0, 0, 61]);
-    let wit = || json!({"delta_ms": delta, "two_interfaces": two_if, "flusher_on_other_interface": other_if, "aaaa_record_cached_too": other_family, "trace": w.trace.render(0, 40)});
+    let first: IpAddr = ip_of(0x61);
+    let fam = if v6 { "aaaa" } else { "a" };
+    let wit = || json!({"delta_ms": delta, "records": fam, "two_interfaces": two_if, "flusher_on_other_interface": other_if, "other_family_record_cached_too": other_family, "trace": w.trace.render(0, 40)});
     let first_removed = removed.iter().find(|(_, ip)| *ip == first).map(|(t, _)| *t);
     l.act("L3");
     // older than one second and on the same interface: ends one second after the flush
@@ -163,7 +177,7 @@ pub fn l3_case(delta: u64, seed: u64, l: &mut Local) {
         match first_removed {
             Some(t) if t >= t2 + 1000 && t <= t2 + 1001 => {}
             other => l.violate(
-                Violation::new("L3", "L3/old-record-not-flushed-after-one-second", format!("a record {delta} ms old was not ended 1 s after a cache-flush record of the same name arrived (removed at {:?})", other.map(|t| t - t2)))
+                Violation::new("L3", format!("L3/old-record-not-flushed-after-one-second/{fam}"), format!("a record {delta} ms old was not ended 1 s after a cache-flush record of the same name arrived (removed at {:?})", other.map(|t| t - t2)))
                     .with(wit()),
             ),
         }
@@ -172,18 +186,18 @@ pub fn l3_case(delta: u64, seed: u64, l: &mut Local) {
         l.violate(
             Violation::new(
                 "L3",
-                if other_if { "L3/flushed-across-interfaces" } else { "L3/same-burst-record-flushed" },
+                format!("{}/{fam}", if other_if { "L3/flushed-across-interfaces" } else { "L3/same-burst-record-flushed" }),
                 format!("a record {delta} ms old was ended by a cache-flush record{}", if other_if { " learned on another interface" } else { " of the same burst" }),
             )
             .with(wit()),
         );
     }
-    if other_family && removed.iter().any(|(_, r)| *r == IpAddr::from(v6addr)) {
-        l.violate(Violation::new("L3", "L3/record-of-another-type-flushed", format!("a cache-flush A record ended the AAAA record of the same host ({delta} ms old)")).with(wit()));
+    if other_family && removed.iter().any(|(_, r)| *r == other_addr) {
+        l.violate(Violation::new("L3", "L3/record-of-another-type-flushed", format!("a cache-flush {} record ended the record of the other address family of the same host ({delta} ms old)", fam.to_uppercase())).with(wit()));
     }
     // the flushing record itself and its burst companions stay
-    for ip in [[10, 0, 0, 62], [10, 0, 0, 63]] {
-        if removed.iter().any(|(_, r)| *r == IpAddr::from(ip)) {
+    for last in [0x62u8, 0x63] {
+        if removed.iter().any(|(_, r)| *r == ip_of(last)) {
             l.violate(Violation::new("L3", "L3/new-record-flushed", "the cache-flush record itself (or its burst companion) was ended").with(wit()));
         }
     }
